@@ -1,8 +1,16 @@
 """Replay of CircuitSys behaviours (direction A: specification -> code) for the semantic
-properties: every circuit of the pool is compiled under a set of flag combinations, loaded with the
-model's store through the registry slices, evaluated on all assignments (several batch shapes) and
-compared with the table TLC computed from the Tier-R semantics.
+properties.  Every circuit of the pool is compiled in ONE compiler per flag combination (derived
+circuits share the compiled tensors of their operands), loaded with the model's store through the
+registry slices, and then
+
+  * evaluated on all assignments in several batch shapes and compared with the table TLC computed
+    from the Tier-R semantics (C01, C02, C03-C07),
+  * driven through the run-phase history (update / reset / save / load / reload / eval) with the
+    tables of every pool entry compared at every eval step (C10, C19, C02 addressability, C17),
+  * differentiated by autograd and compared with TLC's exact partial derivatives (C13),
+  * queried for per-row marginals and compared with TLC's marginal tables (C11).
 """
+import copy
 import hashlib
 import json
 import traceback
@@ -11,8 +19,11 @@ import numpy as np
 import torch
 
 from cirkit.backend.torch.compiler import TorchCompiler
+from cirkit.backend.torch.queries import IntegrateQuery
+from cirkit.symbolic.circuit import StructuralPropertyError
+from cirkit.utils.scope import Scope
 
-from . import adapter
+from . import adapter, nums
 from .adapter import ALL_FLAGS, Built, Refused, close, expected_array, to_linear
 
 
@@ -20,7 +31,14 @@ def beh_hash(beh):
     return hashlib.sha1(json.dumps(beh, sort_keys=True).encode()).hexdigest()[:16]
 
 
-def pick_flags(beh, tier, h):
+def pick_flags_fo4(h, built):
+    """the four fold x optimize combinations of one (hash-rotated, admissible) semiring"""
+    sems = [s for s in adapter.SEMIRINGS if admissible((s, False, False), built)]
+    s0 = sems[h % len(sems)]
+    return [(s0, f, o) for f in (False, True) for o in (False, True)]
+
+
+def pick_flags(tier, h, nflags=4):
     """quick: a hash-rotated subset of the 12 flag combinations (always (F,F) and (T,T) of the
     rotating semiring); thorough: all of them."""
     if tier == "thorough":
@@ -29,7 +47,9 @@ def pick_flags(beh, tier, h):
     s0 = sems[h % 3]
     s1 = sems[(h // 3 + 1) % 3]
     f1 = bool((h // 9) % 2)
-    out = [(s0, False, False), (s0, True, True), (s1, f1, not f1), ("sum-product", True, bool(h % 2))]
+    out = [(s0, False, False), (s0, True, True), (s1, f1, not f1),
+           ("sum-product", True, bool(h % 2)),
+           ("complex-lse-sum", bool(h % 2), bool((h // 2) % 2))]
     return list(dict.fromkeys(out))
 
 
@@ -37,6 +57,8 @@ def admissible(flags, built):
     sem = flags[0]
     if sem == "lse-sum" and (built.has_complex or not built.nonneg):
         return False
+    if sem == "sum-product" and built.has_complex:
+        return False          # the linear semiring is real-valued: it rejects complex tensors
     return True
 
 
@@ -49,103 +71,410 @@ def fold_counts(cc):
     return sorted(fs)
 
 
-def kinds_of(beh):
-    return sorted({l["kind"] for l in beh["layers"]})
+def op_names(beh):
+    return ["base"] * len(beh["bases"]) + [t["op"] for t in beh["ops"]]
 
 
-def replay(beh, tier="quick", seed=0, targets=None, check_rows=True):
-    """Returns a dict: {"hash", "evals", "failures": [...], "refused": n, "tags": [...]}.
-    targets: set of operator names whose pool entries are compared (None = all entries;
-    "base" selects the base circuit)."""
+class Session:
+    """One compiler (one flag combination) with every pool entry compiled in it."""
+
+    def __init__(self, built, pool, flags, res, ops):
+        self.built = built
+        self.pool = pool
+        self.flags = flags
+        self.res = res
+        self.ops = ops
+        self.compile_all()
+
+    def fail(self, kind, **kw):
+        d = {"kind": kind, "flags": list(self.flags)}
+        d.update(kw)
+        self.res["failures"].append(d)
+
+    def compile_all(self):
+        sem, fold, opt = self.flags
+        self.compiler = TorchCompiler(semiring=sem, fold=fold, optimize=opt)
+        self.compiled = {}
+        for i, c in enumerate(self.pool):
+            if isinstance(c, Refused):
+                continue
+            try:
+                self.compiled[i] = self.compiler.compile(c)
+            except Exception as e:  # pylint: disable=broad-except
+                self.fail("compile_raise", pool=i, op=self.ops[i], detail=repr(e)[:300])
+
+    def compare(self, i, table, rows, ridx, bname, floating, step=None):
+        cc = self.compiled[i]
+        sem = self.flags[0]
+        x = self.built.batch([rows[q] for q in ridx], floating=floating)
+        try:
+            out = cc(x)
+        except Exception as e:  # pylint: disable=broad-except
+            self.fail("eval_raise", pool=i, op=self.ops[i], batch=bname, B=len(ridx), step=step,
+                      detail=repr(e)[:300])
+            return None
+        self.res["evals"] += 1
+        obs = to_linear(out, sem)
+        want = expected_array(table, ridx)
+        if obs.ndim == 2 and not self.built.beh["expect"][i].get("scope", [0]):
+            # documented convention: a circuit with empty scope computes a constant tensor and
+            # drops the batch dimension (which is 1)
+            obs = np.broadcast_to(obs[None], (len(ridx),) + obs.shape)
+        if obs.shape != want.shape:
+            self.fail("shape", pool=i, op=self.ops[i], batch=bname, B=len(ridx), step=step,
+                      detail=f"observed {obs.shape} expected {want.shape}")
+        elif not close(obs, want):
+            self.fail("value", pool=i, op=self.ops[i], batch=bname, B=len(ridx), step=step,
+                      nan=bool(np.isnan(obs).any()),
+                      detail=f"observed {obs.tolist()} expected {want.tolist()}"[:600])
+        return out
+
+
+def replay(beh, tier="quick", seed=0, opts=None):
+    """Returns {"hash", "evals", "failures": [...], "refused", "tags", ...}."""
+    opts = opts or {}
+    targets = opts.get("targets")
     h = int(beh_hash(beh), 16) + seed
     rho = adapter.RHOS[h % len(adapter.RHOS)]
     res = {"hash": beh_hash(beh), "evals": 0, "failures": [], "refused": 0, "tags": set(),
-           "rho": list(rho)}
+           "rho": list(rho), "notes": []}
+    hist = beh.get("hist") or []
+    has_reset = any(s["a"] == "reset" for s in hist)
+    init = "const" if (has_reset or opts.get("init") == "const" or (hist and h % 2)) else "random"
+    res["init"] = init
     try:
-        built = Built(beh, rho)
+        built = Built(beh, rho, init=init)
         pool = built.apply_ops()
     except Exception as e:  # pylint: disable=broad-except
         res["failures"].append({"kind": "build_raise", "detail": repr(e),
                                 "trace": traceback.format_exc()[-800:]})
         res["tags"] = sorted(res["tags"])
         return res
-    ops = ["base"] + [t["op"] for t in beh["ops"]]
+    ops = op_names(beh)
+    nb = len(beh["bases"])
+    # ---- operator outcomes against the contract
     for i, c in enumerate(pool):
+        exp = beh["expect"][i]
+        pre = exp.get("pre", "ok")
         if isinstance(c, Refused):
+            if c.dependent:
+                continue
             res["refused"] += 1
             res.setdefault("refusals", []).append({"pool": i, "op": ops[i], "exc": str(c)[:200]})
+            if pre == "ok":
+                res["failures"].append({"kind": "unexpected_refusal", "pool": i, "op": ops[i],
+                                        "detail": str(c)[:300]})
+            elif pre == "struct" and not isinstance(c.exc, StructuralPropertyError):
+                res["failures"].append({"kind": "wrong_exception", "pool": i, "op": ops[i],
+                                        "detail": str(c)[:300]})
+        elif pre in ("struct", "value", "raise"):
+            res["failures"].append({"kind": "missing_refusal", "pool": i, "op": ops[i],
+                                    "detail": f"expected outcome class {pre}, a circuit was returned"})
+        elif "scope" in exp:
+            want_scope = sorted(built.ids[v - 1] for v in exp["scope"])
+            if sorted(c.scope) != want_scope:
+                res["failures"].append({"kind": "scope", "pool": i, "op": ops[i],
+                                        "detail": f"scope {sorted(c.scope)} expected {want_scope}"})
+            if len(list(c.outputs)) != exp["nouts"]:
+                res["failures"].append({"kind": "nouts", "pool": i, "op": ops[i],
+                                        "detail": f"{len(list(c.outputs))} outputs, expected {exp['nouts']}"})
     rows = built.assignments()
-    for flags in pick_flags(beh, tier, h):
+    floating = None if h % 2 else True
+    nrun = 0
+    flag_list = pick_flags(tier, h)
+    if tier != "thorough" and opts.get("flagset") == "fo4":
+        flag_list = pick_flags_fo4(h, built)
+    for flags in flag_list:
         if not admissible(flags, built):
             continue
-        sem, fold, opt = flags
-        compiler = TorchCompiler(semiring=sem, fold=fold, optimize=opt)
-        compiled = {}
-        bad = False
-        for i, c in enumerate(pool):
-            if isinstance(c, Refused):
-                continue
+        if tier != "thorough" and nrun >= opts.get("nflags", 4):
+            break
+        nrun += 1
+        sem = flags[0]
+        ses = Session(built, pool, flags, res, ops)
+        # ---------------- initial values
+        if init == "const" and hist:
+            pass          # the constant initialisers must already hold version 1 (C17)
+        else:
             try:
-                compiled[i] = compiler.compile(c)
+                built.load_store(ses.compiler)
             except Exception as e:  # pylint: disable=broad-except
-                res["failures"].append({"kind": "compile_raise", "flags": list(flags), "pool": i,
-                                        "op": ops[i], "detail": repr(e)[:300]})
-                bad = True
-        try:
-            built.load_store(compiler)
-        except Exception as e:  # pylint: disable=broad-except
-            res["failures"].append({"kind": "registry_raise", "flags": list(flags),
-                                    "detail": repr(e)[:300]})
-            continue
-        for i, cc in compiled.items():
-            if targets is not None and ops[i] not in targets:
+                ses.fail("registry_raise", detail=repr(e)[:300])
                 continue
-            exp = beh["expect"][i]
-            # batch shapes: all rows; B = 1; B = each fold count; a permutation
-            batches = [("all", list(range(len(rows))))]
-            if check_rows:
-                batches.append(("one", [h % len(rows)]))
-                for F in fold_counts(cc)[:3]:
-                    batches.append((f"B=F={F}", [(h + q) % len(rows) for q in range(F)]))
-                batches.append(("perm", list(reversed(range(len(rows))))))
-            for bname, ridx in batches:
-                x = built.batch([rows[q] for q in ridx], floating=None if h % 2 else True)
-                try:
-                    out = cc(x)
-                except Exception as e:  # pylint: disable=broad-except
-                    res["failures"].append({"kind": "eval_raise", "flags": list(flags), "pool": i,
-                                            "op": ops[i], "batch": bname, "B": len(ridx),
-                                            "detail": repr(e)[:300]})
+        if opts.get("addressable"):
+            check_addressable(ses, built)
+        if not hist:
+            for i in ses.compiled:
+                exp = beh["expect"][i]
+                if "table" not in exp or (targets is not None and ops[i] not in targets):
                     continue
-                res["evals"] += 1
-                obs = to_linear(out, sem)
-                want = expected_array(exp, ridx)
-                if not exp["scope"] and len(ridx) == 1 and obs.ndim == 2:
-                    # documented convention: a circuit with empty scope drops a batch dimension
-                    # of size one and returns (outputs, units)
-                    obs = obs[None]
-                if obs.shape != want.shape:
-                    res["failures"].append({"kind": "shape", "flags": list(flags), "pool": i,
-                                            "op": ops[i], "batch": bname, "B": len(ridx),
-                                            "detail": f"observed {obs.shape} expected {want.shape}"})
-                elif not close(obs, want):
-                    res["failures"].append({"kind": "value", "flags": list(flags), "pool": i,
-                                            "op": ops[i], "batch": bname, "B": len(ridx),
-                                            "nan": bool(np.isnan(obs).any()),
-                                            "ok_where_finite": bool(close(
-                                                np.where(np.isnan(obs), want, obs), want)),
-                                            "detail": f"observed {obs.tolist()} expected {want.tolist()}"[:600]})
-            for l in cc.layers:
-                res["tags"].add(type(l).__name__ + (":folded" if getattr(l, "num_folds", 1) > 1 else ""))
+                cc = ses.compiled[i]
+                batches = [("all", list(range(len(rows))))]
+                if opts.get("rows", True):
+                    batches.append(("one", [h % len(rows)]))
+                    for F in fold_counts(cc)[:3]:
+                        batches.append((f"B=F={F}", [(h + q) % len(rows) for q in range(F)]))
+                    batches.append(("perm", list(reversed(range(len(rows))))))
+                for bname, ridx in batches:
+                    ses.compare(i, exp["table"], rows, ridx, bname, floating)
+                for l in cc.layers:
+                    res["tags"].add(type(l).__name__
+                                    + (":folded" if getattr(l, "num_folds", 1) > 1 else ""))
+            if opts.get("grads") and beh.get("grads"):
+                check_grads(ses, beh, built, rows, floating, targets)
+            if opts.get("query") and beh.get("qtables"):
+                check_queries(ses, beh, built, rows, h)
+        else:
+            run_history(ses, beh, built, rows, floating, h, targets)
     res["tags"] = sorted(res["tags"])
     return res
 
 
+# ---------------------------------------------------------------------------------- histories
+def state_dicts(ses):
+    return {i: copy.deepcopy(cc.state_dict()) for i, cc in ses.compiled.items()}
+
+
+def check_state_dict(ses, i, nb):
+    """every learnable tensor exactly once (base circuits: bijection; derived: at least once)"""
+    cc = ses.compiled[i]
+    sd = cc.state_dict()
+    ptrs = [t.data_ptr() for t in sd.values() if t.numel() > 0]
+    params = [p for p in cc.parameters() if p.numel() > 0]
+    pset = {p.data_ptr() for p in params}
+    missing = [p.shape for p in params if p.data_ptr() not in set(ptrs)]
+    if missing:
+        ses.fail("state_dict_missing", pool=i, op=ses.ops[i], detail=f"learnable tensors not in state_dict: {missing}")
+    if i < nb:
+        par_ptrs = [q for q in ptrs if q in pset]
+        if len(par_ptrs) != len(set(par_ptrs)):
+            ses.fail("state_dict_duplicate", pool=i, op=ses.ops[i],
+                     detail="a learnable tensor appears more than once in state_dict")
+
+
+def run_history(ses, beh, built, rows, floating, h, targets):
+    nb = len(beh["bases"])
+    saved = None
+    allr = list(range(len(rows)))
+    for n, step in enumerate(beh["hist"]):
+        a = step["a"]
+        try:
+            if a == "update":
+                i = step["i"] - 1
+                if i in built.leaves and ses.compiler.state.has_compiled_parameter(built.leaves[i].tensor):
+                    built.write_leaf(ses.compiler, i, step["v"], how="sgd" if (h + n) % 2 else "copy")
+            elif a == "reset":
+                for b in range(nb):
+                    if b in ses.compiled:
+                        ses.compiled[b].reset_parameters()
+            elif a == "save":
+                saved = state_dicts(ses)
+                for i in ses.compiled:
+                    check_state_dict(ses, i, nb)
+            elif a == "load":
+                for i, cc in ses.compiled.items():
+                    cc.load_state_dict(saved[i])
+            elif a == "reload":
+                old = ses.compiled
+                ses.compile_all()
+                for i, cc in ses.compiled.items():
+                    if i in old and old[i] is cc:
+                        ses.fail("reload_same_object", pool=i, op=ses.ops[i], step=n,
+                                 detail="a fresh compiler returned the old compiled circuit")
+                    cc.load_state_dict(saved[i])
+            elif a == "eval":
+                for i in ses.compiled:
+                    tab = step["expect"][i]
+                    if not tab or (targets is not None and ses.ops[i] not in targets):
+                        continue
+                    ses.compare(i, tab, rows, allr, "all", floating, step=n)
+        except Exception as e:  # pylint: disable=broad-except
+            ses.fail("history_raise", step=n, action=a, detail=repr(e)[:300])
+            return
+
+
+# ---------------------------------------------------------------------------------- registry
+def check_addressable(ses, built):
+    """every symbolic tensor = exactly one slice of exactly one compiled tensor, slices disjoint"""
+    seen = {}
+    for i, leaf in built.leaves.items():
+        st = ses.compiler.state
+        if not st.has_compiled_parameter(leaf.tensor):
+            continue
+        t, idx = st.retrieve_compiled_parameter(leaf.tensor)
+        ten = t()
+        nf = ten.shape[0]
+        if not 0 <= idx < nf:
+            ses.fail("registry_slice", detail=f"leaf {i}: fold index {idx} outside 0..{nf - 1}")
+            continue
+        if tuple(ten[idx].shape) != tuple(leaf.shape):
+            ses.fail("registry_slice", detail=f"leaf {i}: slice shape {tuple(ten[idx].shape)} "
+                                              f"!= symbolic shape {tuple(leaf.shape)}")
+        key = (ten.data_ptr(), idx)
+        if key in seen:
+            ses.fail("registry_alias", detail=f"leaves {seen[key]} and {i} map to the same slice")
+        seen[key] = i
+
+
+# ---------------------------------------------------------------------------------- gradients
+def check_grads(ses, beh, built, rows, floating, targets):
+    """autograd d out[q,o,u] / d theta against TLC's exact partials (jets), mapped through the
+    registry slice of the symbolic tensor that holds theta and through the leaf's chart."""
+    sem = ses.flags[0]
+    x = built.batch(rows, floating=floating)
+    outs = {}
+    for g in beh["grads"]:
+        li, u, j = g["th"]
+        leaf = built.leaves[li - 1]
+        if leaf.cplx:
+            continue
+        st = ses.compiler.state
+        if not st.has_compiled_parameter(leaf.tensor):
+            continue
+        t, idx = st.retrieve_compiled_parameter(leaf.tensor)
+        ten = t()
+        if not ten.requires_grad:
+            ses.fail("grad_not_required", detail=f"leaf {li} compiled tensor does not require grad")
+            continue
+        pos = (u - 1,) if len(leaf.shape) == 1 else (u - 1, j - 1)
+        w = leaf.linear(1)[pos].real
+        chart = w if leaf.kind in adapter.LOG_KINDS else 1.0
+        for i, cc in ses.compiled.items():
+            dtab = g["d"][i]
+            if not dtab or (targets is not None and ses.ops[i] not in targets):
+                continue
+            if i not in outs:
+                try:
+                    outs[i] = cc(x)
+                except Exception:  # pylint: disable=broad-except
+                    outs[i] = None
+            out = outs[i]
+            if out is None:
+                continue
+            want = expected_array(dtab, list(range(len(rows)))) * chart
+            f = expected_array(beh["expect"][i]["table"], list(range(len(rows))))
+            obs = np.zeros(want.shape, dtype=np.complex128)
+            bad = False
+            flat = out.reshape(-1)
+            for k in range(flat.numel()):
+                parts = [flat[k].real, flat[k].imag] if flat.is_complex() else [flat[k]]
+                val = 0j
+                for pi, part in enumerate(parts):
+                    if not part.requires_grad:
+                        continue
+                    gr = torch.autograd.grad(part, ten, retain_graph=True, allow_unused=True)[0]
+                    if gr is None:
+                        continue
+                    gv = gr[idx][pos].item()
+                    val += gv * (1j if pi == 1 else 1.0)
+                obs.reshape(-1)[k] = val
+            ses.res["evals"] += 1
+            if obs.shape != want.shape:
+                bad = True
+            if sem != "sum-product":
+                # out = log f  =>  d out = f'/f ; compare f' = d out * f where f != 0
+                nz = np.abs(f) > 0
+                if not np.all(np.isfinite(obs[nz])):
+                    ses.fail("grad_nonfinite", pool=i, op=ses.ops[i], th=g["th"],
+                             detail=f"non-finite gradient where the value is non-zero: {obs.tolist()}"[:400])
+                    continue
+                obs_lin = np.where(nz, obs * f, want)
+            else:
+                obs_lin = obs
+                if not np.all(np.isfinite(obs)):
+                    ses.fail("grad_nonfinite", pool=i, op=ses.ops[i], th=g["th"],
+                             detail=f"non-finite gradient: {obs.tolist()}"[:400])
+                    continue
+            if bad or not close(obs_lin, want, rtol=1e-8):
+                ses.fail("grad_value", pool=i, op=ses.ops[i], th=g["th"],
+                         detail=f"observed {obs_lin.tolist()} expected {want.tolist()}"[:600])
+
+
+# ---------------------------------------------------------------------------------- queries
+def check_queries(ses, beh, built, rows, h):
+    """IntegrateQuery on base circuit 1 with per-row masks in the three formats."""
+    if 0 not in ses.compiled:
+        return
+    cc = ses.compiled[0]
+    sem = ses.flags[0]
+    qt = beh["qtables"]
+    V = built.V
+    scope = beh["expect"][0]["scope"]
+    valid = [m for m in range(0, 2 ** V) if all(((m >> (v - 1)) & 1) == 0 or v in scope
+                                                 for v in range(1, V + 1))]
+    try:
+        q = IntegrateQuery(cc)
+    except Exception as e:  # pylint: disable=broad-except
+        ses.fail("query_raise", detail=repr(e)[:300])
+        return
+
+    def expected(ridx, masks):
+        out = []
+        for r, m in zip(ridx, masks):
+            tab = beh["expect"][0]["table"] if m == 0 else qt[m - 1]
+            out.append(tab[r])
+        return expected_array(out, list(range(len(out))))
+
+    def mask_scope(m):
+        return Scope([built.ids[v - 1] for v in range(1, V + 1) if (m >> (v - 1)) & 1])
+
+    def run(fmt, ridx, masks, arg):
+        x = built.batch([rows[r] for r in ridx])
+        try:
+            out = q(x, integrate_vars=arg)
+        except Exception as e:  # pylint: disable=broad-except
+            ses.fail("query_raise", fmt=fmt, B=len(ridx), masks=masks, detail=repr(e)[:300])
+            return
+        ses.res["evals"] += 1
+        obs = to_linear(out, sem)
+        want = expected(ridx, masks)
+        if obs.shape != want.shape:
+            ses.fail("query_shape", fmt=fmt, B=len(ridx), masks=masks,
+                     detail=f"observed {obs.shape} expected {want.shape}")
+        elif not close(obs, want):
+            ses.fail("query_value", fmt=fmt, B=len(ridx), masks=masks,
+                     nan=bool(np.isnan(obs).any()),
+                     detail=f"observed {obs.tolist()} expected {want.tolist()}"[:600])
+
+    nr = len(rows)
+    sizes = sorted({1, 2, 3, nr} | set(fold_counts(cc)))
+    for B in sizes:
+        ridx = [(h + 3 * b) % nr for b in range(B)]
+        masks = [valid[(h + 5 * b + B) % len(valid)] for b in range(B)]
+        # 1. boolean mask tensor
+        mt = torch.zeros((B, built.width), dtype=torch.bool)
+        for b, m in enumerate(masks):
+            for v in range(1, V + 1):
+                if (m >> (v - 1)) & 1:
+                    mt[b, built.ids[v - 1]] = True
+        if max(built.ids[v - 1] for v in scope) + 1 == built.width:
+            run("tensor", ridx, masks, mt)
+        # 2. one scope per row
+        if all(m != 0 for m in masks):
+            run("scopes", ridx, masks, [mask_scope(m) for m in masks])
+        # 3. one scope, broadcast
+        m0 = [m for m in valid if m != 0][(h + B) % (len(valid) - 1)]
+        run("scope", ridx, [m0] * B, mask_scope(m0))
+        run("scope1", ridx, [m0] * B, [mask_scope(m0)])
+    # rejection of variables outside the scope
+    outside = [v for v in range(1, V + 1) if v not in scope]
+    x = built.batch([rows[0]])
+    bad_args = [Scope([built.width + 3])]
+    if outside:
+        bad_args.append(Scope([built.ids[outside[0] - 1]]))
+    for arg in bad_args:
+        try:
+            q(x, integrate_vars=arg)
+            ses.fail("query_missing_rejection", detail=f"integrate_vars={arg} outside the scope was accepted")
+        except Exception:  # pylint: disable=broad-except
+            pass
+
+
 def worker(args):
-    beh, tier, seed, targets = args
+    beh, tier, seed, opts = args
     torch.manual_seed(seed)
     try:
-        return replay(beh, tier, seed, targets)
+        return replay(beh, tier, seed, opts)
     except Exception as e:  # pylint: disable=broad-except
         return {"hash": beh_hash(beh), "evals": 0, "refused": 0, "tags": [],
                 "failures": [{"kind": "harness_error", "detail": repr(e),
